@@ -503,3 +503,24 @@ Proof. intros H. specialize (H Tcp RejectInBand true TeardownFirst eq_refl). dis
 Lemma caller_outcome_lingering tr v still_writing r :
   rejected v = true -> caller_outcome true tr v still_writing r = OTooLarge.
 Proof. intros Hr. apply caller_outcome_too_large; auto. Qed.
+
+(* ---- what the small limits mean ---- *)
+
+(* MaxRequestLength = 0: every non-empty request is refused, on every transport, whatever its
+   class and declaration ... *)
+Lemma limit_zero_refuses_nonempty tr k decl sent n :
+  framed tr k decl sent = Some n -> n > 0 ->
+  rejected (admission pinned_sites tr 0 k decl sent) = true.
+Proof. apply never_processed_pinned. Qed.
+
+(* ... and only the empty one passes *)
+Lemma limit_zero_passes_empty tr k decl :
+  truthful tr k decl 0 = true ->
+  admission pinned_sites tr 0 k decl 0 = Process 0.
+Proof. intros Ht. apply (processed_at_limit pinned_sites tr 0 k decl 0 Ht). lia. Qed.
+
+(* a negative MaxRequestLength refuses everything, the empty request included *)
+Lemma limit_negative_refuses_all tr max k decl sent n :
+  max < 0 -> framed tr k decl sent = Some n -> 0 <= n ->
+  rejected (admission pinned_sites tr max k decl sent) = true.
+Proof. intros Hm Hf Hn. apply (never_processed_pinned tr max k decl sent n Hf). lia. Qed.
